@@ -1,7 +1,7 @@
-(* C14 phase 2: agreement of the two reader models on modules without blackbox instances (part B3) *)
+(* C14 phase 2: agreement of the two reader models on the documented subset (part B3) *)
 From stdpp Require Import strings gmap sets pretty.
 From CG Require Import Model.FastVerilog Proofs.FastVerilogProofs Gen.Gen_fastv.
-From CG Require Import Proofs.FvA0 Proofs.FvA1 Proofs.FvA2 Proofs.FvA3 Proofs.FvA4 Proofs.FvA5 Proofs.FvA6 Proofs.FvA7 Proofs.FvA8 Proofs.FvA9 Proofs.FvA10 Proofs.FvB1 Proofs.FvB2.
+From CG Require Import Proofs.FvA0 Proofs.FvA1 Proofs.FvA2 Proofs.FvP1 Proofs.FvE1 Proofs.FvE2 Proofs.FvE3 Proofs.FvE4 Proofs.FvA3 Proofs.FvE5 Proofs.FvE6 Proofs.FvE7 Proofs.FvA4 Proofs.FvA5 Proofs.FvA6 Proofs.FvA7 Proofs.FvA8 Proofs.FvA9 Proofs.FvA10 Proofs.FvB1 Proofs.FvB2.
 Open Scope string_scope.
 
 Definition kt0 (a : ast) := tie_name (idents a) fast_tie0.
@@ -18,35 +18,50 @@ Definition lookF (t0 t1 : string) (s : st) (m : string) : option ninfo :=
 Section common.
   Variables (a : ast) (bbs : list bbdef).
   Hypothesis Hsub : in_subset a bbs = true.
-  Hypothesis Hni : no_inst a = true.
   Let HF := in_subset_facts a bbs Hsub.
   Variables (t0 t1 : string).
-  Let S := sF t0 t1 a.
+  Hypothesis Hfr : t0 ∉ idents a ∧ t1 ∉ idents a.
+  Let SS := sF t0 t1 bbs a.
+  Notation views := (views t0 t1 bbs). Notation it_driver := (it_driver t0 t1 bbs).
+  Let Hfr3 : t0 ∉ idents a ∧ t1 ∉ idents a ∧ t1 ∉ idents a := conj (proj1 Hfr) (conj (proj2 Hfr) (proj2 Hfr)).
 
-  Lemma fgood_of it : it ∈ a_items a → fgood it.
+  Lemma fgood_of it : it ∈ a_items a → fgood bbs it.
   Proof.
-    intros Hit. pose proof (not_inst a Hni it Hit) as Hn. pose proof (item_ok_of a bbs HF it Hit) as Hok.
+    intros Hit. pose proof (item_ok_of a bbs HF it Hit) as Hok.
     destruct it as [ns|ns|ns|t inst ops|l r|bb inst conns]; cbn [fgood]; try done.
     - destruct (item_ok_gate _ _ _ _ Hok) as (o & ins & -> & Ht & Hc & Hs). exists o, ins. split; [done|]. split; [done|]. split; [done|]. split.
       + apply (sf_ident a bbs HF). eapply idents_item; [exact Hit|]. cbn [item_ids]. right. rewrite bind_cons. apply elem_of_app. left. by left.
       + intros s Hs'. apply (sf_ident a bbs HF). eapply idents_item; [exact Hit|].
         cbn [item_ids]. right. rewrite bind_cons. apply elem_of_app. right. apply elem_of_list_bind. exists (ONet s). split; [by left|done].
     - cbn [item_ok] in Hok. split; [done|]. intros s ->. apply (sf_ident a bbs HF). eapply idents_item; [exact Hit|]. right. by left.
+    - destruct (item_ok_inst _ _ _ _ Hok) as (d & Hfirst & Hnd & Hdisj & Hc). exists d. split; [done|]. split; [done|].
+      intros p o Hin. destruct (Hc p o Hin) as [Hp Ho]. split; [done|]. intros o' ->. destruct (Ho o' eq_refl) as [Hco _]. split; [done|].
+      intros s ->. apply (sf_ident a bbs HF). eapply idents_item; [exact Hit|]. cbn [item_ids]. right. right. apply elem_of_list_bind. exists (p, Some (ONet s)). split; [|done].
+      cbn [fst snd from_option opd_ids]. right. by left.
   Qed.
 
-  Lemma nodup_drv : NoDup (a_items a ≫= it_driver t0 t1).
-  Proof. rewrite <- (drivers_eq a bbs) by done. apply (sf_nodup a bbs HF). Qed.
-  Lemma G_iff o v : sG S !! o = Some v ↔ ∃ it, it ∈ a_items a ∧ gate_view t0 t1 it = Some (o, v).
+  Lemma nodup_drv : NoDup (a_items a ≫= it_driver).
+  Proof. by apply (nodup_keys a bbs t0 t1 t1 HF). Qed.
+  Lemma G_iff o v : sG SS !! o = Some v ↔ ∃ it, it ∈ a_items a ∧ (o, v) ∈ views it.
   Proof.
-    unfold S, sF. rewrite stp_fold_G; [|apply nodup_drv|intros; apply lookup_empty]. cbn [sG s0]. rewrite lookup_empty. split; [intros [?|?]; done|auto].
+    unfold SS, sF. rewrite stp_fold_G; [|apply nodup_drv|intros; apply lookup_empty]. cbn [sG s0]. rewrite lookup_empty. split; [intros [?|?]; done|auto].
   Qed.
-  Lemma driver_ident it o v : it ∈ a_items a → gate_view t0 t1 it = Some (o, v) → o ∈ idents a ∧ o ∉ decl_inputs a.
+  Lemma drivers_idents it k : it ∈ a_items a → k ∈ item_drivers bbs it → k ∈ idents a.
   Proof.
-    intros Hit Hv. assert (Hd : o ∈ a_items a ≫= item_drivers bbs).
-    { rewrite (drivers_eq a bbs t0 t1) by done. apply elem_of_list_bind. exists it. split; [|done]. unfold it_driver. rewrite Hv. by left. }
-    split; [|by apply (sf_drv_in a bbs HF)].
-    eapply idents_item; [exact Hit|]. destruct it as [ns|ns|ns|t inst [|[o'|o'] ins]|l r|bb inst conns]; cbn [FvA3.gate_view] in Hv; try done.
-    - injection Hv as <- _. cbn [item_ids]. right. rewrite bind_cons. apply elem_of_app. left. by left.
-    - injection Hv as <- _. by left.
+    intros Hit Hk. eapply idents_item; [exact Hit|]. destruct it as [ns|ns|ns|t inst [|[o'|o'] ins]|l r|bb inst conns]; cbn [item_drivers] in Hk; try (by apply elem_of_nil in Hk).
+    - apply elem_of_list_singleton in Hk as ->. cbn [item_ids]. right. rewrite bind_cons. apply elem_of_app. left. by left.
+    - apply elem_of_list_singleton in Hk as ->. by left.
+    - destruct (find_bb_first bbs bb) as [d|]; [|by apply elem_of_nil in Hk]. apply elem_of_list_bind in Hk as ([p o] & Hk & Hin). cbn [fst snd] in Hk.
+      destruct o as [[s|s]|]; try (by apply elem_of_nil in Hk). case_bool_decide; [|by apply elem_of_nil in Hk]. apply elem_of_list_singleton in Hk as ->.
+      cbn [item_ids]. right. right. apply elem_of_list_bind. exists (p, Some (ONet s)). split; [|done]. cbn [fst snd from_option opd_ids]. right. by left.
   Qed.
+  (* a key of the state is never a declared input; it is an identifier of the text or a (dotted) pin name *)
+  Lemma key_facts it o v : it ∈ a_items a → (o, v) ∈ views it → o ∉ decl_inputs a ∧ (dotted o = true ∨ o ∈ idents a).
+  Proof.
+    intros Hit Hv. assert (Hk : o ∈ it_driver it) by (unfold FvA4.it_driver; apply elem_of_list_fmap; by exists (o, v)).
+    split; [apply (key_not_input a bbs t0 t1 t1 HF Hfr3); apply elem_of_list_bind; eauto|].
+    destruct (keys_split a bbs t0 t1 t1 HF Hfr3 it o Hit Hk) as [[_ Hd]|[Hd _]]; [right; by eapply drivers_idents|by left].
+  Qed.
+  Lemma G_key o v : sG SS !! o = Some v → o ∉ decl_inputs a ∧ (dotted o = true ∨ o ∈ idents a).
+  Proof. intros (it & Hit & Hv)%G_iff. by eapply key_facts. Qed.
 End common.
